@@ -204,3 +204,44 @@ def attr_meta_ok(mi: int, oi: int, form: int) -> bool:
         if form == 2:
             exp = True
         return ret(bool(hit) == exp)
+
+
+ODD_INPUTS = [
+    '', ' ', '/**/', ':nth-child( of p)', ':nth-child(of p)', ':nth-child(2n+1 of)', ':nth-child(2n+1 of )', ':nth-child()',
+    ':nth-child( )', ':nth-of-type(2 of p)', ':is(', ':is()', ':is( )', ':is(,)', ':not()', ':not(,)', ':has()', ':has(>)',
+    ':has(> )', ':where(', '[a=]', '[a= i]', '[a=b i', '[a=b x]', '[a i]', '[=b]', '[a==b]', '[a~]', '[|a]', '[*|a]', '[x|]', '[|]',
+    ':lang()', ':lang( )', ':lang(,)', ':lang(en,)', ':lang(,en)', ':dir()', ':dir( )', ':dir(LTR RTL)', ':-soup-contains()',
+    ':-soup-contains( )', ':-soup-contains(,)', ':-soup-contains("a",)', ':contains', ':-soup-contains', ':lang', ':dir',
+    ':nth-child', '&a', 'a&', '&&', '&|a', '& &', ':--', ':--a', ':--a(', ':--a()', 'a|', 'a||b', '|', '||', '*|', '*|*|*', 'a|b|c',
+    '#', '##a', '.', '..a', 'a..b', '#.a', '.#a', ':', '::', ':::a', ':a:', 'a:', '@', '@a', '@media x', '!', 'a!', '!a', '>', '> >',
+    'a > > b', '+', '~', ',', ',,', 'a,,b', ', a', 'a ,', '(', ')', 'a)', '(a)', '[', ']', 'a]', '[[a]]', '{', '}', 'a{}', '\\',
+    'a\\', '\\ a', '\\\n', '"', "'", '"a"', "'a", '[a="]', "[a=']", '[a="\n"]', '/*', '*/', '/* a', 'a /* b */ /*', '/*/', '/**',
+    'a:not(b', 'a:not(b))', ':not(:not(:not(', ':is(:is(:is(a', ':current()', ':current(', ':host()', ':host-context()', ':host(,)',
+    ':root()', ':empty()', ':first-child(2)', ':checked()', ':scope()', ':defined()', ':nth-last-child(n of :has(', '\x00', 'a\x00b',
+    '[a=b \u017f]', '[a="b" \u0131]', "[a='b'\u0130]", '[a=b \u212a]', ':nth-child(2\u0274)', ':d\u0131r(ltr)', ':dir(\u017ftr)',
+    ':nth-child(2n+1 \u1d0ff p)', '\u017fpan', ':i\u017f(a)', ':nth-child(2n+1 o\u0493 p)', ':n\u0131th-child(2)', ':\u0131s(a)',
+    '\ud800', '\U0010ffff', 'a\tb', 'a\x0bb', 'a\x85b', '\ufeffa', ':NOT(A)', ':Nth-Child(EVEN OF P)', '[A=B I]', ':--A',
+]
+CUSTOM_DEFS = [None, {}, {':--a': ''}, {':--a': ' '}, {':--a': '/**/'}, {':--a': ','}, {':--a': ':--a'}, {':--a': 'p', ':--A': 'q'},
+               {':--a': ':is('}, {':--\\61': 'p'}, {':--a\\ b': 'p'}, {':--': 'p'}, {'--a': 'p'}, {':-a': 'p'}, {'a': 'p'}, {':--a': '&'},
+               {':--a': ':--b', ':--b': ':--c', ':--c': ':--a'}, {':--a': 'p, :--b', ':--b': ':not(:--a)'}]
+
+
+def odd_inputs_ok(i: int, ci: int) -> bool:
+    """
+    pre: 0 <= i < len(ODD_INPUTS)
+    pre: 0 <= ci < len(CUSTOM_DEFS)
+    post: _
+    """
+    # a list of odd but tokenizable (or nearly tokenizable) inputs x custom maps: documented errors only
+    i, ci = concrete(i), concrete(ci)
+    with notrace():
+        cust = CUSTOM_DEFS[ci]
+        try:
+            sv.purge()
+            c = sv.compile(ODD_INPUTS[i], custom=cust)
+            return ret(isinstance(c, cm.SoupSieve))
+        except DOCUMENTED:
+            return ret(True)
+        except KeyError:
+            return ret(cust is not None and _collide(cust))
